@@ -484,6 +484,8 @@ class Interp:
             if S.is_sym(item):
                 terms = [S.as_bool_term(S.equal(item, k)) for k in container]
                 return z3.Or(*terms) if terms else False
+            if not self.spec:
+                self.world.check_hashable(item, self)
             return item in container
         if isinstance(container, str) and isinstance(item, str):
             return item in container
@@ -737,6 +739,8 @@ class Interp:
         r = self.world.attr_model(obj, name, self)
         if r is not NotImplemented:
             return r
+        if name in (getattr(type(obj), 'pyvc_attrs', None) or ()):
+            return getattr(obj, name)
         if isinstance(obj, (str, SStr, tuple, list, dict, set, SSeq, MList,
                             SMap, frozenset, S.SSet)):
             return BoundMethod(obj, name)
